@@ -16,5 +16,11 @@ def run(rep, tier, seed):
         if len(s2) < 2: s2.append(case)
         if fail: rep.violation('op:' + name, 'complex', '%s (D=%d,P=%d,shapes=%s): %s' % (case['op'], case['D'], case['P'], case['shapes'], fail), {'kind': 'op', 'case': case, 'failure': fail})
     rep.add_bounded('complex coefficients vs mpmath', m, len(keys), 'the analytic elementary functions (exp .. tanh, reciprocal, square, integer/real powers, r**x) on polynomials with complex coefficients at every order, against the Faa di Bruno composition of mpmath complex derivatives', s2, 'D<=5, P<=2, 3 cells per array')
+    m = 0; keys = set(); s3 = []
+    for name, case, fail in opchecks.special_points_pass(rng, tier):
+        m += 1; keys.add((case['op'], case['D'], case['P']))
+        if len(s3) < 2: s3.append(case)
+        if fail: rep.violation('op:' + name, 'special-point', '%s (D=%d,P=%d): %s' % (case['op'], case['D'], case['P'], fail), {'kind': 'op', 'case': case, 'failure': fail})
+    rep.add_bounded('special base points vs mpmath', m, len(keys), 'every elementary/special function with the zeroth coefficient exactly 0, 1 or -1 (where inside the domain of smoothness) and generic higher coefficients, against the Faa di Bruno composition of mpmath derivatives; a non-finite coefficient is a failure', s3, 'D<=5, P<=3')
     rep.assume(*[ASSUME[k] for k in ('A1', 'A3', 'A4', 'A5', 'A6', 'A8', 'A8b', 'A9', 'A10', 'A11', 'CPLX')])
     return rc
